@@ -1,8 +1,33 @@
-(* C05 -- theorems follow in ForestProofs; placeholder example *)
+(* C05 — navigation words agree on every DIE. *)
 From Coq Require Import NArith List Bool.
-From Dwgrep Require Import Forest.
+From Dwgrep Require Import Forest ForestProofs.
 Import ListNotations.
 Local Open Scope N_scope.
+
+(* every DIE yielded by `child` of D has D as `parent` (raw view, any forest with distinct offsets) *)
+Theorem C05_child_has_parent : forall f, wf f -> forall r p k,
+  In r (roots f) -> In p (preorder r) -> In k (d_kids p) -> raw_parent f (d_off k) = Some p.
+Proof. exact raw_child_has_parent. Qed.
+(* a unit root has no parent: the parent chain ends there *)
+Theorem C05_root_has_no_parent : forall f, wf f -> forall r, In r (roots f) -> raw_parent f (d_off r) = None.
+Proof. exact raw_root_has_no_parent. Qed.
+(* the DIEs of a unit (its pre-order) are exactly those reachable by root child* *)
+Theorem C05_unit_is_child_closure : forall d x, In x (preorder d) <-> reach d x.
+Proof. exact preorder_is_child_closure. Qed.
+(* cooked: the children never contain an import that can be resolved, and without imports they are the raw children *)
+Theorem C05_cooked_children_have_no_imports : forall fuel f kids,
+  Forall (fun k => import_target f k = None) (cooked_kids fuel f kids).
+Proof. exact cooked_kids_inlined. Qed.
+Print Assumptions C05_child_has_parent.
+Print Assumptions C05_root_has_no_parent.
+Print Assumptions C05_unit_is_child_closure.
+Print Assumptions C05_cooked_children_have_no_imports.
+
+(* non-vacuity, cooked: a DIE two levels inside a partial unit imported under a namespace *)
 Example C05_example :
-  map r_parent (raw_rows [mkunit 0 4 0 (Some (Die 11 17 true 1 [] [Die 15 52 false 2 [] []; Die 17 52 false 2 [] []]))]) = [None; Some 11; Some 11].
+  let pu := Die 50 60 true 1 [] [Die 55 57 true 2 [] [Die 58 52 false 3 [] []]] in
+  let f := [mkunit 0 4 0 (Some (Die 11 17 true 1 [] [Die 15 57 true 2 [] [Die 18 61 false 4 [mkattr 24 16 (Some 50)] []]]));
+            mkunit 40 4 0 (Some pu)] in
+  map (fun r => (r_off r, r_parent r, r_root r, r_unit r)) (cooked_rows f)
+  = [(11, None, Some 11, Some 0); (15, Some 11, Some 11, Some 0); (55, Some 15, Some 11, Some 40); (58, Some 55, Some 11, Some 40)].
 Proof. vm_compute. reflexivity. Qed.
